@@ -36,6 +36,8 @@ FAMILY = [
     H([A(), P(0, ["tuple", [S(0), BOOL]]), P(0), P(0, ["ann", ["base", "str"], ["varrange", [["str", [120]], ["str", [121]]]]])]),
     H([A(), P(0, S(2)), P(0, BOOL), A(), P(3, S(0), S(0)), P(3, IR(0, 1))]),                    # directly nested concrete production
     H([A(), P(0), P(0, S(0), S(3)), A(), P(3, IR(0, 1)), P(3, S(3))]),                          # two recursive abstract types
+    # a dependent range next to a field declared with a CONCRETE production whose own first field has the same number
+    H([A(), P(0, IR(1, 2), S(3), ["ann", INT, ["dependent", [0], ["intrange_lo", 2]]]), P(0, BOOL), P(None, IR(1, 2))]),
 ]
 
 
@@ -151,7 +153,11 @@ def gen(seed, tier):
             if lang_count(d, D) > cap:
                 break
             for kind in ("max", "full", "pi"):
-                cases.append({"op": "enum", "decl": d, "decider": [kind, D], "limit": 40 * cap, "width": 12})
+                c = {"op": "enum", "decl": d, "decider": [kind, D], "limit": 40 * cap, "width": 12}
+                if len(cases) % 4 == 1:
+                    # another grammar over the same classes (fewer productions) is extracted between the extraction and its use
+                    c["interleave"] = [i for i in d["considered"] if i == d["start"] or i % 2 == 1]
+                cases.append(c)
     return cases
 
 
